@@ -18,13 +18,13 @@ from dv.evidence import Recorder, finish
 from checks.nodecommon import Result, record, generic_replay
 
 PID = "C07"
-RULE = ("histories over 24 event symbols x 1..3 connections (conn 0 optionally outbound): handshakes, "
+RULE = ("histories over 30 event symbols x 1..3 connections (conn 0 optionally outbound): handshakes, "
         "good requests, requests with a missing required AVP / unknown command / unknown application / "
         "foreign realm / no Destination-Realm, T-flagged repeats, answers nobody waits for, answers "
         "lacking Origin-Host or Result-Code (CEA, DWA, DPA, application), requests held by the application and "
         "answered later (also after the connection was lost and re-established, with the peer spelling its "
         "identity in another case), node-originated requests with "
-        "good/defective replies, DWR/DPR, clock advances; all sequences to depth 3 on a ready connection "
+        "good/defective replies, DWR/DPR, pairs of messages whose first read ends inside the second one, clock advances; all sequences to depth 3 on a ready connection "
         "are enumerated, deeper ones (to 14) drawn by Hypothesis. Non-trivial: the history contains a "
         "defective answer or a request that takes an error path; distinct by script.")
 ASSUME = ["identifier values 0 and 2^32-1 are valid and are used (each special key once per connection)",
@@ -35,7 +35,7 @@ ASSUME = ["identifier values 0 and 2^32-1 are valid and are used (each special k
 SYMS = ["HS", "REQ", "REQ_missing", "REQ_unknown_cmd", "REQ_unknown_app", "REQ_foreign_realm", "REQ_no_realm",
         "REQ_T", "REQ_raise", "ANS_stray", "ANS_no_origin", "ANS_no_result", "CEA_no_origin", "CEA_stray",
         "DWA_stray", "DWA_no_origin", "DPA_stray", "DPA_no_result", "DWR", "DPR", "NODE_REQ", "NODE_REQ_ANS",
-        "ADV2", "ADV_IDLE", "REQ_hold", "SUBMIT", "RECONNECT"]
+        "ADV2", "ADV_IDLE", "REQ_hold", "SUBMIT", "RECONNECT", "REQ2_seg", "DWR_REQ_seg", "REQ_DWR_seg"]
 DEFECTIVE = {"ANS_stray", "ANS_no_origin", "ANS_no_result", "CEA_no_origin", "CEA_stray", "DWA_stray",
              "DWA_no_origin", "DPA_stray", "DPA_no_result", "REQ_missing", "REQ_unknown_cmd", "REQ_unknown_app",
              "REQ_foreign_realm", "REQ_no_realm", "REQ_raise", "REQ_T"}
@@ -153,6 +153,14 @@ def evaluate(case) -> Result:
                 w.feed_msg(c, dict(base, k="DPA"))
             elif s == "DPA_no_result":
                 w.feed_msg(c, dict(base, k="DPA", no_result=True, no_origin=True))
+            elif s in ("REQ2_seg", "DWR_REQ_seg", "REQ_DWR_seg"):
+                # two messages whose first read ends 20..40 bytes into the second one
+                j = nid()
+                k1, k2 = {"REQ2_seg": ("REQ", "REQ"), "DWR_REQ_seg": ("DWR", "REQ"), "REQ_DWR_seg": ("REQ", "DWR")}[s]
+                m1 = W.build_msg(dict(base, k=k1))
+                m2 = W.build_msg({"hbh": j, "e2e": j, "host": host, "k": k2})
+                w.feed(c, m1 + m2, cuts=[len(m1) + 20 + (i % 3) * 10])
+                res.classes.append("segmented-read")
             elif s == "DWR":
                 w.feed_msg(c, dict(base, k="DWR"))
             elif s == "DPR":
